@@ -86,6 +86,8 @@ def subst_stmt(s, env, ren):
         return ["latch", N(s[1]), E(s[2]), E(s[3]), E(s[4]), s[5]]
     if k == "place":
         return ["place", D(s[1]) if s[1] else None, s[2], E(s[3]), E(s[4]), s[5]]
+    if k == "ent":
+        return ["ent", D(s[1]), E(s[2])]
     if k == "set":
         return ["set", N(s[1]), s[2], E(s[3])]
     if k == "expr":
@@ -105,7 +107,7 @@ def subst_stmt(s, env, ren):
 def declared_names(body):
     out = []
     for s in body:
-        if s[0] in ("input", "int", "sig", "bun", "mem", "assign") or (s[0] == "place" and s[1]):
+        if s[0] in ("input", "int", "sig", "bun", "mem", "assign", "ent") or (s[0] == "place" and s[1]):
             out.append(s[1])
     return out
 
@@ -217,7 +219,17 @@ def inline_calls(prog):
         return pre + [s2]
 
     out = []
+    alias = {}
     for s in prog:
+        if alias:
+            s = subst_stmt(s, alias, {}) if s[0] != "func" else s
+        if s[0] == "ent":
+            pre = []
+            r = expand_expr(s[2], pre)
+            out.extend(pre)
+            if r[0] == "v":
+                alias[s[1]] = r[1]
+            continue
         out.extend(expand_stmt(s))
     return out
 
@@ -237,9 +249,10 @@ def paste_imports(prog, files):
         out = []
         for s in p:
             if s[0] == "import":
-                if s[1] in seen:
+                key = id(files.get(s[1])) if s[1] in files else s[1]   # two spellings of one file
+                if key in seen:
                     continue
-                seen.add(s[1])
+                seen.add(key)
                 out.extend(go(files.get(s[1], [])))
             else:
                 out.append(copy.deepcopy(s))
